@@ -98,6 +98,36 @@ fn build_arr(w: &WArr) -> ArrayImpl {
     }
 }
 
+/// The array of the request obtained as `slice(off..off+n)` of a longer array whose first `off`
+/// rows are other rows (NULL and non-NULL mixed): what `DataChunk::slice` (LIMIT/OFFSET) hands to
+/// the kernels. The kernels must not see any difference to a freshly built array.
+fn prefix_slots(w: &WArr, off: usize) -> Vec<(bool, Raw)> {
+    (0..off)
+        .map(|j| {
+            let valid = (j * 7 + off) % 3 != 0;
+            let raw = match w.ty.as_str() {
+                "bool" => Raw::B(j % 2 == 0),
+                "str" => Raw::S("p".to_string()),
+                _ => Raw::I((j % 5) as i64 + 1),
+            };
+            (valid, raw)
+        })
+        .collect()
+}
+
+fn with_prefix(w: &WArr, off: usize) -> WArr {
+    if w.ty == "null" {
+        return WArr { ty: w.ty.clone(), slots: vec![], null_len: w.null_len + off };
+    }
+    let mut slots = prefix_slots(w, off);
+    slots.extend(w.slots.iter().cloned());
+    WArr { ty: w.ty.clone(), slots, null_len: 0 }
+}
+
+fn build_sliced(w: &WArr, off: usize, n: usize) -> ArrayImpl {
+    build_arr(&with_prefix(w, off)).slice(off..off + n)
+}
+
 fn show_arr(a: &ArrayImpl) -> String {
     fn slots<A: Array>(a: &A, f: impl Fn(&A::Item) -> String) -> String {
         (0..a.len())
@@ -347,7 +377,7 @@ fn sql_type(ty: &str) -> &'static str {
 }
 
 /// End-to-end: table with one chunk of raw arrays, unoptimised `(proj (list e) (scan t ..))`.
-fn eval_e2e(rt: &tokio::runtime::Runtime, e: &Sexp, warrs: &[WArr], n: usize) -> String {
+fn eval_e2e(rt: &tokio::runtime::Runtime, e: &Sexp, warrs: &[WArr], n: usize, off: usize) -> String {
     let r = catch(|| {
         rt.block_on(async {
             let db = Database::new_in_memory();
@@ -360,10 +390,10 @@ fn eval_e2e(rt: &tokio::runtime::Runtime, e: &Sexp, warrs: &[WArr], n: usize) ->
             let tid = db.verif_catalog().get_table_id_by_name("postgres", "t").ok_or("no table")?;
             let chunk: DataChunk = if warrs.is_empty() {
                 // no input column: a dummy column gives the cardinality
-                let a: I32Array = (0..n as i32).collect();
+                let a: I32Array = (0..(n + off) as i32).collect();
                 [ArrayImpl::new_int32(a)].into_iter().collect()
             } else {
-                warrs.iter().map(build_arr).collect()
+                warrs.iter().map(|w| build_arr(&with_prefix(w, off))).collect()
             };
             let StorageImpl::InMemoryStorage(st) = db.verif_storage() else { return Err("storage".to_string()) };
             let table = st.get_table(tid).map_err(|e| e.to_string())?;
@@ -381,7 +411,14 @@ fn eval_e2e(rt: &tokio::runtime::Runtime, e: &Sexp, warrs: &[WArr], n: usize) ->
             let t = plan.add(Expr::Table(tid));
             let scan_cols = plan.add(Expr::List(col_ids.clone().into()));
             let tru = plan.add(Expr::Constant(DataValue::Bool(true)));
-            let scan = plan.add(Expr::Scan([t, scan_cols, tru]));
+            let mut scan = plan.add(Expr::Scan([t, scan_cols, tru]));
+            if off > 0 {
+                // `LIMIT n OFFSET off` below the projection: the chunk reaches the evaluator
+                // through `DataChunk::slice(off..off+n)`
+                let lim = plan.add(Expr::Constant(DataValue::Int32(n as i32)));
+                let o = plan.add(Expr::Constant(DataValue::Int32(off as i32)));
+                scan = plan.add(Expr::Limit([lim, o, scan]));
+            }
             plan.add(Expr::Proj([projs, scan]));
             let chunks = db.verif_run_plan(&plan).await.map_err(|e| format!("ERR {e}"))?;
             Ok::<_, String>(chunks)
@@ -752,6 +789,21 @@ fn gen_request(g: &mut Gen) -> String {
         return format!("(f {e})");
     }
     let n = g.len();
+    if g.r.chance(1, 7) {
+        // arrays that come out of `slice(off..off+n)` (direct kernels) or of LIMIT n OFFSET off
+        // (end to end), off mostly not a multiple of 64: boolean-heavy expressions (comparison, AND,
+        // OR, NOT, CASE, IN, LIKE use the word-wise bitmap kernels)
+        let off = *g.r.pick(&[1usize, 3, 7, 31, 63, 64, 65, 100, 130]);
+        let ncols = 1 + g.r.below(3) as usize;
+        let tys: Vec<String> = (0..ncols).map(|_| (*g.r.pick(&["i32", "i32", "i64", "bool", "bool", "str"])).to_string()).collect();
+        let out_ty = *g.r.pick(&["bool", "bool", "bool", "i32", "str"]);
+        let depth = 1 + g.r.below(2) as u32;
+        let e = g.expr(out_ty, &tys, depth);
+        let n = if n == 0 { 1 } else { n };
+        let arrs: Vec<String> = tys.iter().map(|t| g.arr(t, n)).collect();
+        let kind = if g.r.chance(1, 2) { "ks" } else { "el" };
+        return format!("({kind} {off} {n} {e} {})", arrs.join(" "));
+    }
     if g.r.chance(1, 2) {
         // kernel request: one operator directly over columns
         let it = g.int_ty();
@@ -832,15 +884,26 @@ fn main() {
                     println!("{}", run_fold(&rt, &l[1]));
                     continue;
                 }
+                // `ks` / `el`: as `k` / `e`, on arrays obtained by `slice(off..off+n)` / below LIMIT OFFSET
+                let sliced = kind == "ks" || kind == "el";
+                let off: usize = if sliced { l[1].as_atom().unwrap().parse().unwrap() } else { 0 };
+                let l = if sliced { &l[1..] } else { &l[..] };
                 let n: usize = l[1].as_atom().unwrap().parse().unwrap();
                 let e = &l[2];
                 let warrs: Vec<WArr> = l[3..].iter().map(parse_arr).collect();
-                let cols: Vec<ArrayImpl> = warrs.iter().map(build_arr).collect();
+                let cols: Vec<ArrayImpl> = if sliced {
+                    match catch(|| warrs.iter().map(|w| build_sliced(w, off, n)).collect::<Vec<_>>()) {
+                        Ok(c) => c,
+                        Err(_) => { println!("panic ;; -"); continue; }
+                    }
+                } else {
+                    warrs.iter().map(build_arr).collect()
+                };
                 let direct = run_direct(e, &cols, n);
-                let whole = if kind == "k" { direct.clone() } else { eval_e2e(&rt, e, &warrs, n) };
+                let whole = if kind == "k" || kind == "ks" { direct.clone() } else { eval_e2e(&rt, e, &warrs, n, off) };
                 let orc = oracle(e, &warrs, n, &direct);
                 // for `e` requests also report whether the direct interpretation agrees
-                let agree = if kind == "k" || whole == direct || (whole == "ok (empty)" && direct.starts_with("ok")) { "" } else { " ;; e2e!=direct" };
+                let agree = if kind == "k" || kind == "ks" || whole == direct || (whole == "ok (empty)" && direct.starts_with("ok")) { "" } else { " ;; e2e!=direct" };
                 println!("{whole} ;; {orc}{agree}");
             }
         }
